@@ -61,6 +61,14 @@ pub enum Kind {
         words: Vec<String>,
         naps: Vec<u32>,
     },
+    /// two concurrent writers on one pipe, records of at most PIPE_BUF bytes
+    /// must never be torn (PIPE_BUF atomicity)
+    TwoWriters {
+        count_a: u32,
+        count_b: u32,
+        len: u32,
+        relay: Option<u32>,
+    },
     /// reader exits early: liveness and prefix integrity only
     EarlyExit {
         n: u32,
@@ -196,7 +204,13 @@ pub fn generate(rng: &mut Rng, tier: Tier) -> Case {
             read_loop: rng.below(4) == 0,
             sink_buf: *rng.pick(&bufs()),
         },
-        85..=92 => {
+        85..=87 => Kind::TwoWriters {
+            count_a: rng.range(1, 40),
+            count_b: rng.range(1, 40),
+            len: *rng.pick(&[2u32, 8, 100, 256, 511, 512]),
+            relay: if rng.bool() { Some(*rng.pick(&[1u32, 7, 512, 1024])) } else { None },
+        },
+        88..=92 => {
             let nw = rng.range(2, 6);
             // some words contain multi-byte characters: the read built-in
             // assembles them from single-byte reads
@@ -385,6 +399,22 @@ pub fn render(c: &Case) -> (String, Option<String>) {
                 "{{ {prod}}} | {{ read a b; read c; echo \"[$a][$b][$c]\"; read d; echo \"eof=$?\"; }}\necho \"?=$?\"\n"
             );
             (script, Some(format!("[{a}][{b}][{cc}]\neof=1\n?=0\n")))
+        }
+        Kind::TwoWriters { count_a, count_b, len, relay } => {
+            let mid = match relay {
+                Some(b) if *b as usize % (*len as usize) == 0 || *b == 1 || true => format!(" | relay {b}"),
+                _ => String::new(),
+            };
+            let mid = if relay.is_some() { mid } else { String::new() };
+            (
+                format!(
+                    "{{ recs A {count_a} {len} & recs B {count_b} {len}; wait; }}{mid} | recsink {len}\necho \"?=$?\"\n"
+                ),
+                Some(format!(
+                    "bytes={} torn=0 A={count_a} B={count_b}\n?=0\n",
+                    (count_a + count_b) * len
+                )),
+            )
         }
         Kind::EarlyExit {
             n,
@@ -632,6 +662,7 @@ impl Prop for C14 {
                     Kind::HereDoc { .. } => "kind:here-document",
                     Kind::ReadSlow { .. } => "kind:read-slow-producer",
                     Kind::EarlyExit { .. } => "kind:early-exit-reader",
+                    Kind::TwoWriters { .. } => "kind:two-writers-atomicity",
                 };
                 stats.count(kind, 1);
                 if k == 0 && stats.samples.len() < 3 && index % 7 == 0 {
@@ -729,6 +760,17 @@ impl Prop for C14 {
             Kind::ReadSlow { words, naps } => {
                 if naps.iter().any(|x| *x > 0) {
                     push(Kind::ReadSlow { words: words.clone(), naps: vec![0; naps.len()] });
+                }
+            }
+            Kind::TwoWriters { count_a, count_b, len, relay } => {
+                if relay.is_some() {
+                    push(Kind::TwoWriters { count_a: *count_a, count_b: *count_b, len: *len, relay: None });
+                }
+                if *count_a > 1 {
+                    push(Kind::TwoWriters { count_a: count_a / 2, count_b: *count_b, len: *len, relay: *relay });
+                }
+                if *count_b > 1 {
+                    push(Kind::TwoWriters { count_a: *count_a, count_b: count_b / 2, len: *len, relay: *relay });
                 }
             }
             Kind::EarlyExit { n, s, chunk, buf, limit } => {
